@@ -76,7 +76,7 @@ Section Append.
     assert (Hhok : v2hdr_ok h).
     { apply (v2file_hdr_ok hi lo 0 ioff P trailer); try assumption; try lia. }
     unfold resume, v2file. fold h.
-    rewrite (read_header_pragma hok hdrdec pragma_ok) by (unfold default_maxh; lia).
+    rewrite (read_header_pragma hok hdrdec pragma_ok) by (cbn [w_maxh filter_opts]; unfold default_maxh; lia).
     cbn [N.eqb Pos.eqb filter_opts w_v1 andb orb negb].
     change (data_base (filter_opts 2)) with 51.
     change pragma_size with (blen pragma). rewrite drop_app.
